@@ -34,6 +34,7 @@ type c14Case struct {
 	// out
 	Items   []string `json:"items,omitempty"`
 	ViaSend bool     `json:"via_send_header,omitempty"`
+	Bin     []byte   `json:"bin_value,omitempty"` // value of the -bin items (default c14BinVal)
 }
 
 type c14Env struct {
@@ -71,6 +72,14 @@ func (e *c14Env) call(tc *c14Case, hdr http.Header) *callResult {
 		return doWeb(e.mux, full, "application/grpc-web+proto", hdr, reqBody{Data: wire.GRPCFrame(0, pb)})
 	case "webtext":
 		return doWeb(e.mux, full, "application/grpc-web-text+proto", hdr, reqBody{Data: wire.GRPCFrame(0, pb)})
+	case "grpc-gzip", "web-gzip":
+		hdr.Set("Grpc-Encoding", "gzip")
+		hdr.Set("Grpc-Accept-Encoding", "gzip")
+		frame := wire.GRPCFrame(1, gzipBytes(pb))
+		if tc.Proto == "grpc-gzip" {
+			return doGRPC(e.mux, full, "application/grpc+proto", hdr, reqBody{Data: frame})
+		}
+		return doWeb(e.mux, full, "application/grpc-web+proto", hdr, reqBody{Data: frame})
 	case "http":
 		hdr.Set("Content-Type", "application/json")
 		return doHTTP(e.mux, "POST", route, "", hdr, reqBody{Data: js, CL: -2})
@@ -139,6 +148,10 @@ func (e *c14Env) execOut(tc *c14Case) (oracle, note string) {
 		return false
 	}
 	hmd, tmd, tmid := metadata.MD{}, metadata.MD{}, metadata.MD{}
+	c14BinVal := c14BinVal
+	if tc.Bin != nil {
+		c14BinVal = tc.Bin
+	}
 	if has("h-two") {
 		hmd.Append("x-h", "v1", "v2")
 	}
@@ -286,11 +299,14 @@ func (e *c14Env) execOut(tc *c14Case) (oracle, note string) {
 		if vs := getAll(res.Header, "grpc-status"); len(vs) > 0 && tc.Shape == "ss" {
 			return "reserved-key-forged", fmt.Sprintf("grpc-status %q in the response headers", vs)
 		}
-		if enc := res.Header.Get("Grpc-Encoding"); enc != "" && enc != "identity" {
+		gz := strings.HasSuffix(tc.Proto, "-gzip")
+		if enc := res.Header.Get("Grpc-Encoding"); !gz && enc != "" && enc != "identity" {
 			return "reserved-key-forged", fmt.Sprintf("grpc-encoding %q although nothing is compressed", enc)
+		} else if gz && enc != "gzip" && len(res.Msgs) > 0 {
+			return "reserved-key-forged", fmt.Sprintf("grpc-encoding %q although gzip was negotiated and replies were sent", enc)
 		}
 		ct := res.Header.Get("Content-Type")
-		wantCT := map[string]string{"grpc": "application/grpc+proto", "web": "application/grpc-web+proto", "webtext": "application/grpc-web-text+proto"}[tc.Proto]
+		wantCT := map[string]string{"grpc": "application/grpc+proto", "web": "application/grpc-web+proto", "webtext": "application/grpc-web-text+proto", "grpc-gzip": "application/grpc+proto", "web-gzip": "application/grpc-web+proto"}[tc.Proto]
 		if ct != wantCT && !(trailersOnly && strings.HasPrefix(ct, "application/grpc")) {
 			return "reserved-key-forged", fmt.Sprintf("content-type %q want %q", ct, wantCT)
 		}
@@ -318,11 +334,16 @@ func (e *c14Env) execOut(tc *c14Case) (oracle, note string) {
 func c14InCases(thorough bool) []c14Case {
 	var out []c14Case
 	alpha := []byte{0x00, 0x41, 0xfb, 0xff}
+	depth := 3
+	if thorough {
+		alpha = append(alpha, 0x3e, 0x3f) // with fb/ff these reach the '+' '/' '-' '_' sextets in every position
+		depth = 4
+	}
 	var bins [][]byte
 	var rec func(cur []byte)
 	rec = func(cur []byte) {
 		bins = append(bins, append([]byte(nil), cur...))
-		if len(cur) == 3 {
+		if len(cur) == depth {
 			return
 		}
 		for _, a := range alpha {
@@ -332,7 +353,11 @@ func c14InCases(thorough bool) []c14Case {
 	rec(nil)
 	protos := []string{"grpc", "web", "webtext", "http"}
 	for _, p := range protos {
-		for _, name := range []string{"x-a", "X-A", "X-Mixed-Case"} {
+		names := []string{"x-a", "X-A", "X-Mixed-Case"}
+		if thorough {
+			names = append(names, "x_under.dot-1", "X9", "a", "x-a-binx", "bin", "x-bin-a")
+		}
+		for _, name := range names {
 			out = append(out, c14Case{Kind: "in", Proto: p, Shape: "unary", Headers: [][2]string{{name, "v1"}}})
 			out = append(out, c14Case{Kind: "in", Proto: p, Shape: "unary", Headers: [][2]string{{name, "v1"}, {name, "v 2, with comma"}}})
 			out = append(out, c14Case{Kind: "in", Proto: p, Shape: "ss", Headers: [][2]string{{name, "b"}, {name, "a"}, {"x-other", "o"}}})
@@ -379,12 +404,37 @@ func c14OutCases(thorough bool) []c14Case {
 		sets = append(sets, []string{ri}, append([]string{ri}, custom...))
 	}
 	sets = append(sets, append(append([]string{}, reservedItems...), custom...))
-	for _, p := range []string{"grpc", "web", "webtext", "http"} {
+	for _, p := range []string{"grpc", "web", "webtext", "http", "grpc-gzip", "web-gzip"} {
 		for _, sh := range []string{"unary", "ss"} {
 			for _, fail := range []bool{false, true} {
 				for _, via := range []bool{false, true} {
 					for _, s := range sets {
 						out = append(out, c14Case{Kind: "out", Proto: p, Shape: sh, Fail: fail, Items: s, ViaSend: via})
+					}
+				}
+			}
+		}
+	}
+	if thorough {
+		// every byte string of length <= 3 over {00,41,fb,ff} as outgoing -bin header and trailer
+		alpha := []byte{0x00, 0x41, 0xfb, 0xff}
+		var bins [][]byte
+		var rec func(cur []byte)
+		rec = func(cur []byte) {
+			bins = append(bins, append([]byte{}, cur...))
+			if len(cur) == 3 {
+				return
+			}
+			for _, a := range alpha {
+				rec(append(cur, a))
+			}
+		}
+		rec(nil)
+		for _, p := range []string{"grpc", "web", "webtext", "http"} {
+			for _, sh := range []string{"unary", "ss"} {
+				for _, fail := range []bool{false, true} {
+					for _, b := range bins {
+						out = append(out, c14Case{Kind: "out", Proto: p, Shape: sh, Fail: fail, Items: []string{"h-bin", "t-bin"}, Bin: b, ViaSend: len(b)%2 == 1})
 					}
 				}
 			}
@@ -402,7 +452,7 @@ func (e *c14Env) exec(tc *c14Case) (string, string) {
 
 func runC14(c *Ctx) {
 	r := c.Run
-	r.Rule("incoming: protocol{gRPC, gRPC-web, gRPC-web-text, HTTP} × header name{x-a, X-A, X-Mixed-Case} × 1..3 values; '-bin' names × every byte string of length <= 3 over {00,41,fb,ff} in padded and unpadded base64, alone and mixed; outgoing: protocol × shape{unary, server-streaming} × outcome{ok, PermissionDenied} × SetHeader vs SendHeader × every subset of {two-valued header, -bin header, same key in header and trailer, two-valued trailer, -bin trailer, trailer set after the first reply} plus each reserved key (content-type, grpc-status, grpc-message, grpc-encoding, grpc-status-details-bin, trailer) as header and as trailer, alone, with all custom items, and all at once; distinct = (kind, protocol, shape, outcome, item set)")
+	r.Rule("incoming: protocol{gRPC, gRPC-web, gRPC-web-text, HTTP} × header name{x-a, X-A, X-Mixed-Case} × 1..3 values; '-bin' names × every byte string of length <= 3 over {00,41,fb,ff} in padded and unpadded base64, alone and mixed; outgoing: protocol (plus gRPC and gRPC-web with gzip negotiated) × shape{unary, server-streaming} × outcome{ok, PermissionDenied} × SetHeader vs SendHeader × every subset of {two-valued header, -bin header, same key in header and trailer, two-valued trailer, -bin trailer, trailer set after the first reply} plus each reserved key (content-type, grpc-status, grpc-message, grpc-encoding, grpc-status-details-bin, trailer) as header and as trailer, alone, with all custom items, and all at once; distinct = (kind, protocol, shape, outcome, item set); thorough: incoming -bin values of length <= 4 over {00,41,fb,ff,3e,3f}, more header names, and every byte string of length <= 3 as outgoing -bin header and trailer value")
 	r.Assume("http.Header canonicalises names as net/http does when parsing the wire", "trailers are demanded on gRPC and gRPC-web only")
 	cases := append(c14InCases(c.Thorough()), c14OutCases(c.Thorough())...)
 	envs := make([]*c14Env, explore.Workers)
